@@ -255,6 +255,9 @@ class Session:
         elif k == "W":
             env.maintenance()
             tr.append(self.snap())
+        elif k == "M":
+            r = env.deliver_with_sweep(a[1], a[2])
+            tr.append(self.snap())
         self.actions.append(a)
         self.traces.append(tr)
         self.results.append(r)
@@ -569,6 +572,18 @@ def run_policy(sess: Session, rng: random.Random, policy: str, max_steps: int = 
 # one case = spec + policy + seed; run in a worker process
 # ------------------------------------------------------------------------------------------------
 
+def _park(sess: "Session", rng: random.Random, limit: int = 10) -> None:
+    """after a pause request: FIFO deliveries until a stage is really parked PAUSED (RunTask -> PauseTask), so that the
+    unpause that follows has a ResumeStage to send"""
+    for _ in range(limit):
+        if any(s["status"] == "PAUSED" for s in sess.env.alpha()["stages"]):
+            return
+        rows = sess.rows()
+        if not rows:
+            return
+        sess.do(("D", pick(rows, rng, "fifo"), True))
+
+
 def run_case(case: dict) -> dict:
     """runs the real engine; returns everything needed for comparison and monitoring"""
     rng = random.Random(case["seed"])
@@ -597,12 +612,37 @@ def run_case(case: dict) -> dict:
                 sess.do(("X", rows[0]["id"], case["k"]))
                 sess.do(("R",))
             run_policy(sess, rng, case.get("policy", "fifo"), max_steps=case.get("max_steps", 200), submit=False)
+        elif kind == "mid_sweep":
+            # FIFO; delivery number `at` gets a recovery sweep from another thread right after its k-th commit
+            sess.do(("B",))
+            step = 0
+            while step < case.get("max_steps", 150):
+                rows = sess.rows()
+                if not rows:
+                    break
+                rid = pick(rows, rng, "fifo")
+                if step == case["at"]:
+                    sess.do(("M", rid, case["k"]))
+                else:
+                    sess.do(("D", rid, True))
+                step += 1
+        elif kind == "pause_mid_sweep":
+            # as pause_crash, but instead of a crash a sweeper thread runs right after the k-th commit of ResumeStage
+            run_policy(sess, rng, "fifo", max_steps=case["at"])
+            sess.do(("P",))
+            _park(sess, rng)
+            sess.do(("U",))
+            rows = sess.rows()
+            if rows:
+                first = next((r for r in rows if r["type"] == "ResumeStage"), rows[0])
+                sess.do(("M", first["id"], case["k"]))
+            run_policy(sess, rng, case.get("policy", "fifo"), max_steps=case.get("max_steps", 200), submit=False)
         elif kind == "pause_crash":
             # FIFO for `at` steps, pause, a few more deliveries (RunTask -> PauseTask parks the tasks), unpause, then the
             # delivery of the first ResumeStage (or whatever is first) is cut after k commits; restart, recovery, drain
             run_policy(sess, rng, "fifo", max_steps=case["at"])
             sess.do(("P",))
-            run_policy(sess, rng, "fifo", max_steps=case.get("parked", 3), submit=False)
+            _park(sess, rng)
             sess.do(("U",))
             rows = sess.rows()
             if rows:
@@ -615,7 +655,7 @@ def run_case(case: dict) -> dict:
         env = sess.env
         out = {
             "case": case, "actions": [list(a) for a in sess.actions], "traces": sess.traces,
-            "oracle_text": sess.oracle_text(), "ledger": env.ledger, "audit": env.audit(),
+            "oracle_text": ("" if case.get("monitor_only") else sess.oracle_text()), "ledger": env.ledger, "audit": env.audit(),
             "final": env.alpha(), "results": sess.results, "idx": sess.idx, "wall": time.time() - t0,
             "id_ref": env.id_ref, "task_ids": {k: list(v) for k, v in env.task_ids.items()},
             "handled": env.handled, "audit_marks": sess.audit_marks, "ledger_marks": sess.ledger_marks, "queue_marks": sess.queue_marks,
@@ -735,9 +775,12 @@ def run_batch(cases: list[dict], nproc: int = lib.NPROC) -> list[dict]:
         for o in outs:
             o["disagreement"] = {"what": "oracle crashed", "detail": str(e)[:500]}
         return outs
-    for o, m in zip(outs, model):
+    for o, m in zip([o for o in outs if o["oracle_text"]], model):
         o["model_traces"] = m
         o["disagreement"] = diff_session(o["case"]["spec"], [tuple(a) for a in o["actions"]], o["traces"], m)
+    for o in outs:
+        if not o["oracle_text"]:
+            o["model_traces"], o["disagreement"] = [], None      # monitor-only case: judged by the monitors alone
     return outs
 
 
@@ -847,6 +890,17 @@ def plan(pid: str, tier: str, rng: random.Random) -> list[dict]:
         for n in ("mutex_pair", "choice3", "mutex_suspend", "diamond"):
             for at in range(0, 18, 3):
                 add(kind="inject", what="maintenance", at=at, spec=fam[n], name=n, policy="fifo")
+        # "at any moment" includes BETWEEN two commits of one handler: a sweeper thread right after the k-th commit of a
+        # delivery (harness-only action M: judged by the monitors - same outcome, no extra execution - not by the model)
+        for n in (list(fam) if thorough else ["chain3", "diamond", "multitask", "poll", "transient2", "first_of", "or_split",
+                                              "syn_before_after", "self_loop", "mutex_pair", "continue_on_failure"]):
+            for at in range(0, 30 if thorough else 22):
+                for k in ((1, 2, 3) if thorough else (1 + at % 2,)):
+                    add(kind="mid_sweep", at=at, k=k, spec=fam[n], name=n, monitor_only=True)
+        for n in ("chain3", "multitask"):
+            for at in (3, 4, 6, 8):
+                for k in (1, 2):
+                    add(kind="pause_mid_sweep", at=at, k=k, spec=fam[n], name=n, monitor_only=True)
         # sweeps around a signal to a suspended (or not yet suspended) stage and around an operator restart
         for at in range(0, 10):
             add(kind="inject", what="signal", stage=0, signame=1, persistent=True, at=at, recover_at=[at, at + 1, at + 2],
@@ -1021,6 +1075,9 @@ def monitor(pid: str, out: dict, base: dict | None) -> list[Violation]:
         vs += [v for v in M.m_c05(out) if v.signature.startswith(("stuck", "running-leftover"))]
     if pid == "C10" and kind == "inject" and what in ("recover", "recover_every") and base is not None:
         vs += M.m_outcome(out, base, "recovery sweep in a healthy run", exec_slack={})
+    if pid == "C10" and kind in ("mid_sweep", "pause_mid_sweep") and base is not None:
+        vs += M.m_outcome(out, base, "recovery sweep between two commits of a handler", exec_slack={})
+        vs += [v for v in M.m_c05(out) if v.signature.startswith(("stuck", "running-leftover"))]
     if pid == "C17" and (what == "cancel" or (what == "pause" and out["case"].get("cancel_with_unpause"))):
         vs += M.m_c17(out)
     if pid == "C18":
